@@ -5,6 +5,7 @@ import TlsProofs.Crypto.GcmTop
 import TlsProofs.Crypto.CcmTop
 import TlsProofs.Crypto.AesTables
 import TlsProofs.Crypto.AesEnc
+import TlsProofs.Crypto.AesFull
 /-
   C09 — symmetric primitives and key derivation compute the standardised functions.
 
@@ -688,17 +689,11 @@ theorem aes_rcon_shifts_rounds :
     Aes.Gen.numRounds = [(16, 10), (24, 12), (32, 14)] :=
   ⟨Aes.rcon_table, Aes.shifts_and_rounds⟩
 
-/-- PARTIAL (growth item).  The table-driven encryption of `Rijndael.encrypt` — first key addition, the
-    T1..T4 rounds with the shift offsets, the special last round with `S` — run on ANY key schedule
-    `K` of 4·(rounds+1) 32-bit words, is the FIPS-197 Cipher (SubBytes, ShiftRows, MixColumns,
-    AddRoundKey) with round key r = the bytes of K[4r..4r+3], for every 16-byte block.
-    Full statement (not yet proved):
-      `(Aes.Model.init key >>= fun k => Aes.Model.encrypt k block) = .ok (Aes.Spec.cipher key block)` and the
-      same for `decrypt` / `invCipher`, for every key of 16, 24, 32 bytes.
-    Missing: (1) the key-schedule loops of `__init__` = KeyExpansion (§5.2); (2) the decryption
-    direction (the equivalent inverse cipher with T5..T8 and the U-transformed keys, §5.3.5).
-    Both are tied by correspondence (`aes_model` / `aes_spec` driver ops). -/
-theorem aes_encrypt_rounds_eq_spec_partial (K : List Nat) (hK : ∀ w ∈ K, w < 2 ^ 32) (rounds : Nat)
+/-- The table-driven encryption of `Rijndael.encrypt` — first key addition, the T1..T4 rounds with the
+    shift offsets, the special last round with `S` — run on ANY key schedule `K` of 4·(rounds+1)
+    32-bit words, is the FIPS-197 Cipher (SubBytes, ShiftRows, MixColumns, AddRoundKey) with round
+    key r = the bytes of K[4r..4r+3], for every 16-byte block. -/
+theorem aes_encrypt_rounds_eq_spec (K : List Nat) (hK : ∀ w ∈ K, w < 2 ^ 32) (rounds : Nat)
     (hr : 1 ≤ rounds) (hlen : K.length = 4 * (rounds + 1)) (block : Bytes) (hb : block.length = 16) :
     Aes.Model.crypt K rounds Aes.Gen.T1 Aes.Gen.T2 Aes.Gen.T3 Aes.Gen.T4 Aes.Gen.S Aes.Gen.shiftsEnc block =
       .ok (Aes.Spec.cipherRK (Aes.rkBytes K) rounds block) :=
@@ -706,6 +701,36 @@ theorem aes_encrypt_rounds_eq_spec_partial (K : List Nat) (hK : ∀ w ∈ K, w <
 
 example : ∃ r, Aes.Model.crypt (List.replicate 44 7) 10 Aes.Gen.T1 Aes.Gen.T2 Aes.Gen.T3 Aes.Gen.T4 Aes.Gen.S
     Aes.Gen.shiftsEnc (zeros 16) = .ok r :=
-  ⟨_, aes_encrypt_rounds_eq_spec_partial _ (by decide) 10 (by decide) (by decide) _ (by decide)⟩
+  ⟨_, aes_encrypt_rounds_eq_spec _ (by decide) 10 (by decide) (by decide) _ (by decide)⟩
+
+/-- the key-schedule loops of `Rijndael.__init__` (first copy, the `while t < ROUND_KEY_COUNT` evolution
+    with RotWord/SubWord/rcon, the extra SubWord for 32-byte keys, truncation of the last pass)
+    compute FIPS-197 §5.2 KeyExpansion word for word, for 16-, 24- and 32-byte keys; `Ke` of the
+    object is that list and the decryption schedule is `mkKd` of it -/
+theorem aes_key_schedule_eq_spec (key : Bytes) (hk : key.length = 16 ∨ key.length = 24 ∨ key.length = 32) :
+    ∃ Kd, Aes.Model.init key =
+        .ok { Ke := (Aes.Spec.keyExpansion key).map Aes.wd, Kd := Kd, rounds := key.length / 4 + 6 } ∧
+      Aes.Model.mkKd ((Aes.Spec.keyExpansion key).map Aes.wd) (key.length / 4 + 6) = .ok Kd :=
+  Aes.init_spec key hk
+
+/-- FULL: `Rijndael(key, 16).encrypt(block)` = Cipher(KeyExpansion(key), block) of FIPS-197 for every
+    key of 16, 24, 32 bytes and every 16-byte block (other lengths raise ValueError: `aes_guards`) -/
+theorem aes_encrypt_eq_spec (key block : Bytes) (hk : key.length = 16 ∨ key.length = 24 ∨ key.length = 32)
+    (hb : block.length = 16) :
+    (Aes.Model.init key >>= fun k => Aes.Model.encrypt k block) = .ok (Aes.Spec.cipher key block) :=
+  Aes.encrypt_spec key block hk hb
+
+example : (Aes.Model.init (zeros 16) >>= fun k => Aes.Model.encrypt k (zeros 16)) =
+    .ok (Aes.Spec.cipher (zeros 16) (zeros 16)) := aes_encrypt_eq_spec _ _ (Or.inl rfl) rfl
+
+/-- wrong key or block lengths raise ValueError -/
+theorem aes_guards (key block : Bytes) :
+    ((key.length ≠ 16 ∧ key.length ≠ 24 ∧ key.length ≠ 32) → Aes.Model.init key = .error .value) ∧
+    (∀ k : Aes.Model.Keys, block.length ≠ 16 →
+      Aes.Model.encrypt k block = .error .value ∧ Aes.Model.decrypt k block = .error .value) := by
+  constructor
+  · intro h; rw [Aes.Model.init, if_pos h]
+  · intro k h
+    simp [Aes.Model.encrypt, Aes.Model.decrypt, Aes.Model.crypt, h]
 
 end Tls.Crypto.C09
